@@ -111,6 +111,22 @@ def prove(pc, side, goal, want_model=True, quick=False):
     return Verdict('proved', backend=v.backend if parts else 'trivial', secs=time.time() - t0)
 
 
+def tactic_unsat(pc, side, goal, ms, tactics):
+    t0 = time.time()
+    try:
+        t = z3.TryFor(z3.Then(*tactics), int(ms * core.BUDGET_FACTOR))
+        s = t.solver()
+        s.add(*pc)
+        s.add(*side)
+        s.add(z3.Not(goal))
+        r = s.check()
+    except z3.Z3Exception:
+        r = z3.unknown
+    STATS['z3'] += 1
+    STATS['z3_s'] += time.time() - t0
+    return r == z3.unsat
+
+
 def _prove1(pc, side, goal, quick=False):
     if z3.is_true(goal):
         return Verdict('proved', backend='trivial')
@@ -129,6 +145,13 @@ def _prove1(pc, side, goal, quick=False):
         if r == z3.sat:
             return Verdict('refuted', model=s.model(), backend='z3')
         if budget in (Z3_FIRST, 600):
+            # 1b. the same query through z3's nonlinear-real tactic pipeline (equation solving first, then nlsat): decides at once many
+            # queries on which the default solver's performance depends on incidental term order; only `unsat` is taken from it
+            for tac in (('simplify', 'propagate-values', 'solve-eqs', 'qfnra-nlsat'), ('simplify', 'solve-eqs', 'smt')):
+                if tactic_unsat(pc, side, goal, 800 if quick else 2500, tac):
+                    return Verdict('proved', backend='z3')
+                if quick:
+                    break
             # 2. polynomial normal form (between the short and the long z3 attempt)
             t1 = time.time()
             try:
